@@ -196,7 +196,7 @@ def check(run):
     except Broken as b:
         broken.append(b)
     rng = run.sub_rng("c14")
-    n = 40 if run.tier == "quick" else 600
+    n = 52 if run.tier == "quick" else 700
     wits = []
     stats = {"projects": n, "accepted_both": 0, "rejected_both": 0, "same_behaviour": 0, "same_go_text": 0, "orders": 0, "check_build_same_interface": 0, "outside_go_model": 0}
     feats_all = {}
@@ -206,6 +206,30 @@ def check(run):
         projs = []
         for i in range(n):
             files, deps, feats = gen_project(rng)
+            if rng.random() < 0.3:
+                # one defect of a kind that each stage reports (typer, name resolution, match compilation) in a package the
+                # entry package reaches: both ways have to reject the project
+                import re as _re
+
+                files = dict(files)
+                imps = lambda tx: _re.findall(r"^import (\w+)", tx, _re.M)
+                reach, todo = set(), imps("".join(v for f_, v in files.items() if "/" not in f_))
+                while todo:
+                    x = todo.pop()
+                    if x not in reach:
+                        reach.add(x)
+                        todo += imps("".join(v for f_, v in files.items() if f_.startswith(x + "/")))
+                cands = sorted(f_ for f_ in files if f_.endswith(".gom") and ("/" not in f_ or f_.split("/")[0] in reach))
+                target = rng.choice(cands)
+                kind, inj = rng.choice([
+                    ("typer", "fn injected_bad(n: int32) -> int32 { let z: bool = n; 0 }"),
+                    ("name", "fn injected_bad(n: int32) -> int32 { n + no_such_name }"),
+                    ("int match without a wildcard", "fn injected_bad(n: int32) -> int32 { match n { 0 => 1, 1 => 2 } }"),
+                    ("string match without a wildcard", "fn injected_bad(s: string) -> int32 { match s { \"a\" => 1, \"b\" => 2 } }"),
+                    ("int match without a wildcard", "fn injected_bad(n: int32, b: bool) -> int32 { match (b, n) { (true, 0) => 1, (false, 1) => 2, (true, 2) => 3 } }"),
+                ])
+                files[target] = files[target] + "\n" + inj + "\n"
+                feats = list(feats) + ["injected defect: " + kind]
             for f in feats:
                 feats_all[f] = feats_all.get(f, 0) + 1
             d = os.path.join(base, "w%04d" % i)
